@@ -416,6 +416,10 @@ void NifFile::SortController(NiTimeController* controller, SortState& sortState)
 }
 
 void NifFile::SortCollision(NiObject* parent, uint32_t parentIndex, SortState& sortState) {
+	// A block that is still being sorted further up the call chain is part of a reference cycle
+	if (!sortState.activeIndices.insert(parentIndex).second)
+		return;
+
 	auto constraint = dynamic_cast<bhkConstraint*>(parent);
 	if (constraint) {
 		for (auto& entityId : constraint->entityRefs) {
@@ -470,6 +474,8 @@ void NifFile::SortCollision(NiObject* parent, uint32_t parentIndex, SortState& s
 				SortCollision(child, id, sortState);
 		}
 	}
+
+	sortState.activeIndices.erase(parentIndex);
 }
 
 void NifFile::SortShape(NiShape* shape, SortState& sortState) {
@@ -1983,25 +1989,25 @@ void NifFile::PrepareData() {
 			if (!bsTriShape)
 				continue;
 
+			NiSkinPartition* skinPart = nullptr;
 			auto skinInst = hdr.GetBlock<NiSkinInstance>(shape->SkinInstanceRef());
-			if (!skinInst)
-				continue;
+			if (skinInst)
+				skinPart = hdr.GetBlock(skinInst->skinPartitionRef);
 
-			auto skinPart = hdr.GetBlock(skinInst->skinPartitionRef);
-			if (!skinPart)
-				continue;
+			if (skinPart) {
+				bsTriShape->SetVertexData(skinPart->vertData);
 
-			bsTriShape->SetVertexData(skinPart->vertData);
+				std::vector<Triangle> tris;
+				for (int pi = 0; pi < static_cast<int>(skinPart->partitions.size()); ++pi)
+					for (auto& tri : skinPart->partitions[pi].trueTriangles) {
+						tris.push_back(tri);
+						skinPart->triParts.push_back(pi);
+					}
 
-			std::vector<Triangle> tris;
-			for (int pi = 0; pi < static_cast<int>(skinPart->partitions.size()); ++pi)
-				for (auto& tri : skinPart->partitions[pi].trueTriangles) {
-					tris.push_back(tri);
-					skinPart->triParts.push_back(pi);
-				}
+				bsTriShape->SetTriangles(tris);
+			}
 
-			bsTriShape->SetTriangles(tris);
-
+			// Dynamic shapes keep their positions in the dynamic data, skinned or not
 			auto dynamicShape = dynamic_cast<BSDynamicTriShape*>(bsTriShape);
 			if (dynamicShape) {
 				for (uint16_t i = 0; i < dynamicShape->GetNumVertices(); i++) {
@@ -2369,7 +2375,10 @@ bool NifFile::GetNodeTransformToGlobal(const std::string& nodeName, MatTransform
 
 		MatTransform xform = node->GetTransformToParent();
 		NiNode* parent = GetParentNode(node);
-		while (parent) {
+
+		// Stop at a node that was already visited (cyclic child references)
+		std::set<NiNode*> visited{node};
+		while (parent && visited.insert(parent).second) {
 			xform = parent->GetTransformToParent().ComposeTransforms(xform);
 			parent = GetParentNode(parent);
 		}
